@@ -15,7 +15,49 @@ IDS_NONZERO = 'SpanId::next_id() returns a non-zero id (assumed in units/common/
 NOW = 'fastant::Instant::now() never returns Instant::ZERO (ZERO is the "not finished" marker)'
 STD = 'std wrappers in units/common/core.rs (props_extend = get_or_insert_with+extend+map(into), Option::filter, into_cow) behave as their std documentation says'
 
+COLL_ENV = 'environment model of a collector cycle: drain_receivers yields ARBITRARY lists of commands (only: no empty token); no consistent cut across threads is assumed (units/coll/prelude.rs)'
+COLL_STD = 'std/derive wrappers of units/coll/prelude.rs: HashMap entry/get_mut/keys wrappers, Vec::drain/extend/tail wrappers, props_to_vec, Cow clone, derived Default of ActiveCollector, SpanId hash/eq key model'
+CLOCK = 'fastant: Instant::as_unix_nanos(anchor) is a function of (instant, anchor) (unix_ns); its monotonicity and wall-clock accuracy are NOT verified'
+REPORTER = 'the user Reporter is modelled as a log of report() calls (ReporterLog)'
+
+H = 'GlobalCollector::handle_commands'
+COLL_DELIVERY = [H, 'drain_one', 'postprocess_span_collection', 'amend_span', 'amend_local_span', 'mount_danglings']
+
 PROPS = {
+    'C01': {
+        'verus': [('spsc', ['Sender::send', 'Sender::force_send', 'bounded', 'Receiver::try_recv']), ('coll', COLL_DELIVERY)],
+        'kani': [],
+        'assumptions': [RTRB, TLS, LOCK, COLL_ENV, COLL_STD, REPORTER,
+                        'NOT decided: "within about one report interval" and liveness of the background thread (time/liveness are outside contract verification); flush() runs one cycle after everything that happened-before it (structural)'],
+    },
+    'C03': {
+        'verus': [('coll', [H, 'drain_one'])],
+        'kani': [],
+        'assumptions': [LOCK, COLL_ENV, COLL_STD, REPORTER,
+                        'NOT decided: the clause "every span that finished before it on any thread" needs a consistent cut across threads, which the sequential drain of receivers does not establish (DESIGN.md D8); proved per batch: what a commit releases is everything buffered so far plus this batch, in one report call, and nothing afterwards'],
+    },
+    'C06': {
+        'verus': [('coll', [H, 'postprocess_span_collection', 'amend_span', 'amend_local_span', 'mount_danglings']),
+                  ('local', ['SpanQueue::add_event', 'SpanQueue::add_properties', 'SpanQueue::with_properties', 'SpanLine::add_event', 'SpanLine::add_properties', 'SpanLine::with_properties',
+                             'LocalSpanStack::add_event', 'LocalSpanStack::add_properties', 'LocalSpanStack::with_properties', 'RawSpan::begin_with'])],
+        'kani': [],
+        'assumptions': [COLL_ENV, COLL_STD, STD, 'strings are opaque values: "unchanged" means the same Cow value moved or cloned'],
+    },
+    'C08': {
+        'verus': [('coll', [H, 'drain_one']), ('spsc', ['Receiver::try_recv'])],
+        'kani': [],
+        'assumptions': [RTRB, LOCK, COLL_ENV, COLL_STD],
+    },
+    'C17': {
+        'verus': [('coll', ['amend_local_span', 'mount_danglings', 'LocalSpansInner::to_span_records', 'postprocess_span_collection'])],
+        'kani': [],
+        'assumptions': [COLL_STD, CLOCK, 'identical "up to the clock anchor": proved per anchor value'],
+    },
+    'C18': {
+        'verus': [('coll', ['amend_span', 'amend_local_span'])],
+        'kani': [],
+        'assumptions': [CLOCK, NOW, 'NOT decided: "begin time lies inside the wall-clock window of the run" and interval nesting need a monotone clock (TSC + f64 conversion are trusted)'],
+    },
     'C10': {
         'verus': [('local', '*')],
         'kani': [],
@@ -27,7 +69,7 @@ PROPS = {
         'assumptions': ['JaegerReporter::convert + serialize produce, for a slice of records, bytes whose length is a function of that slice only (enc_len); what the bytes contain is C19', 'UdpSocket::send_to sends exactly the buffer it is given as one datagram (OS)', 'ghost log: every send in try_report goes through the logged wrapper (the raw send_to stub has `requires false`)'],
     },
     'C04': {
-        'verus': [('spsc', ['Sender::force_send', 'Sender::send', 'bounded', 'Receiver::try_recv'])],
+        'verus': [('spsc', ['Sender::force_send', 'Sender::send', 'bounded', 'Receiver::try_recv']), ('coll', [H])],
         'kani': [],
         'assumptions': [RTRB, TLS, LOCK],
     },
